@@ -30,14 +30,14 @@ RULE = (
 )
 ASSUMPTIONS = [
     "gradient values are compared only under the C02 conditioning predicate on the reported perturbation matrix",
-    "merged-realization gradients are not compared here (C02)",
+    "merged-realization gradient *values* are not compared with a reference here (C02 and its recorded finding); merged runs take part in the flag clauses and in the metamorphic 'fails completely' twin",
     "functions=None with enough successes is only flagged without filters/stddev (their own TOO_FEW conditions are C14)",
 ]
 COMPONENTS = {
     "real": ["EnOptConfig validation", "EnsembleEvaluator", "EnsembleOptimizer", "filters", "estimators", "plan steps", "results"],
     "stub": ["SimEvaluator", "sim/scripted optimizer", "sim/inject sampler"],
 }
-PROBES = ["flags_compared", "gradient_flags_compared", "values_compared", "gradients_compared",
+PROBES = ["twin_gradients_compared", "flags_compared", "gradient_flags_compared", "values_compared", "gradients_compared",
           "too_few_functions", "too_few_gradients", "perturbation_threshold_failed_realization",
           "all_realizations_failed", "mask_with_failures", "ill_conditioned_skipped"]
 
@@ -50,7 +50,7 @@ def _small(rng: random.Random, counter: int, tier: str) -> dict:
     maskno = (counter // len(shapes)) % (1 << cells)
     scn = gen.base_scenario(
         rng, PROP, nr=R, npert=P, nv_max=3, no_max=2, nc_max=2, zero_real_weights=(rng.random() < 0.3),
-        inject_p=0.85, merge=False, script_len=rng.randint(1, 3),
+        inject_p=0.85, merge=(rng.random() < 0.25), script_len=rng.randint(1, 3),
     )
     cfg = scn["configs"][0]
     # thresholds over their whole range
@@ -75,9 +75,10 @@ def generate(seed: int, index: int, tier: str) -> dict:
     rng = random.Random(seed)
     if index % 2 == 0:
         return _small(rng, index // 2, tier)
-    scn = gen.base_scenario(rng, PROP, nr_max=8, npert_max=6, nv_max=4, merge=False, inject_p=0.8)
+    merge = rng.random() < 0.3
+    scn = gen.base_scenario(rng, PROP, nr_max=8, npert_max=6, nv_max=4, merge=merge, stddev=(False if merge else None), inject_p=0.8)
     gen.add_nan_faults(rng, scn, rate=0.9, max_faults=6)
-    scn["stratum"] = "sampled"
+    scn["stratum"] = "sampled-merged" if scn["configs"][0]["gradient"].get("merge_realizations") else "sampled"
     return scn
 
 
@@ -91,6 +92,7 @@ def execute(scn: dict) -> dict:
 
     cfg0 = scn["configs"][0]
     compared = 0
+    partial_failed: set[int] = set()
     first_deficient_call = None
     for ln in oracles.linked_results(ctx):
         cfg = ln.cfg
@@ -156,6 +158,10 @@ def execute(scn: dict) -> dict:
                 probe("mask_with_failures")
             if np.any(failed & ~ref["f_failed"]):
                 probe("perturbation_threshold_failed_realization")
+                # only realizations with at least one successful perturbation matter here
+                for r in np.where(failed & ~ref["f_failed"])[0]:
+                    if np.any(~ref["p_failed"][r]):
+                        partial_failed.add(int(r))
             probe("gradient_flags_compared")
             compared += 1
             if not np.array_equal(rep_failed, failed):
@@ -189,6 +195,33 @@ def execute(scn: dict) -> dict:
                 if not np.allclose(rep, e["ref"], rtol=1e-6, atol=1e-8 * scale):
                     viol.append({"clause": "gradient-value-reduced-ensemble", "sig": {"filtered": e["filtered"], "estimator": e.get("est")},
                                  "detail": f"eval {ln.call.k} {kind}{j}: reported {rep.tolist()}, reduced-ensemble reference {e['ref'].tolist()}"})
+
+    # "exactly as if absent" (metamorphic): a realization that failed for the gradient only because too few of
+    # its perturbations succeeded must influence the gradient no more than one that fails completely
+    if partial_failed and not oracles.has_filters(cfg0) and not any(e[0] == "exception" for e in ctx.exits):
+        import copy as _copy
+        twin = _copy.deepcopy(scn)
+        for r in sorted(partial_failed):
+            twin["faults"].append({"kind": "nan", "eval": None, "real": int(r), "pert": None, "col": None})
+        tctx = harness.run_scenario(twin)
+        ga = [ln for ln in oracles.linked_results(ctx) if not ln.is_function]
+        gb = [ln for ln in oracles.linked_results(tctx) if not ln.is_function]
+        for a, b in zip(ga, gb):
+            if a.opt.gradients is None or b.opt.gradients is None:
+                break
+            fa = np.asarray(a.opt.realizations.failed_realizations, bool)
+            fb = np.asarray(b.opt.realizations.failed_realizations, bool)
+            if not np.array_equal(fa, fb) or not np.array_equal(np.asarray(a.opt.evaluations.variables), np.asarray(b.opt.evaluations.variables)):
+                break
+            probe("twin_gradients_compared")
+            x = np.asarray(a.opt.gradients.objectives, float)
+            y = np.asarray(b.opt.gradients.objectives, float)
+            if not np.allclose(x, y, rtol=1e-9, atol=1e-12, equal_nan=True):
+                viol.append({"clause": "partially-failed-realization-influences-gradient",
+                             "sig": {"merged": bool(cfg0.get("gradient", {}).get("merge_realizations"))},
+                             "detail": f"eval {a.call.k if a.call else '?'}: objective gradients {x.tolist()} with realization(s) {sorted(partial_failed)} failing through "
+                                       f"perturbation_min_success, {y.tolist()} when the same realization(s) fail completely"})
+                break
 
     step_kind = scn["plan"]["steps"][0]["kind"]
     # an optimizer step must stop with TOO_FEW_REALIZATIONS at the first deficient evaluation
